@@ -337,6 +337,36 @@ theorem c10_22_frames_keep_other_sessions (cfg : Cfg) (s : St) (now : Nat) (mid 
   · exact processCm22_snd_get?_other cfg s now mid dest data _
       (fun h => hne (J1939.Props.C02.c02_session_key_injective i' sa' da' _ dest mid.source_address h0 h3 h4 (cm_session_lt data) h2 h1 h))
 
+/-- J1939-22: a long `send_pgn` never touches the receive table -/
+theorem c10_22_send_keeps_rcv (cfg : Cfg) (s : St) (now dp pf ps prio sa : Nat) (data : List Nat) (tl ff : Nat) (hl : 60 < data.length) :
+    (sendPgn cfg s now dp pf ps prio sa data tl ff).1.st.rcv = s.rcv := by
+  have hl' : ¬ data.length ≤ Const.DL22.TP := by
+    have : Const.DL22.TP = 60 := by decide
+    omega
+  unfold sendPgn
+  simp only [hl', if_false]
+  crack
+
+theorem sendPgn22_get?_other (cfg : Cfg) (s : St) (now dp pf ps prio sa : Nat) (data : List Nat) (tl ff : Nat) (hl : 60 < data.length)
+    (k : Nat) (hk : ∀ i dst, k ≠ Tp22.buffer_hash i sa dst) :
+    (sendPgn cfg s now dp pf ps prio sa data tl ff).1.st.snd.get? k = s.snd.get? k := by
+  have hl' : ¬ data.length ≤ Const.DL22.TP := by
+    have : Const.DL22.TP = 60 := by decide
+    omega
+  unfold sendPgn
+  simp only [hl', if_false]
+  crack [PyDict.get?_set_ne]
+
+/-- J1939-22, A SEND FROM ONE CA NEVER DISTURBS ANOTHER CA'S SESSIONS: a long `send_pgn` from source `sa` (accepted or
+    refused) leaves every outbound session of any other source address on this stack unchanged -/
+theorem c10_22_send_keeps_other_sources (cfg : Cfg) (s : St) (now dp pf ps prio sa : Nat) (data : List Nat) (tl ff : Nat)
+    (hl : 60 < data.length) (i' sa' da' : Nat) (h0 : i' < 16) (h1 : sa < 256) (h3 : sa' < 256) (h4 : da' < 256) (hne : sa' ≠ sa) :
+    (sendPgn cfg s now dp pf ps prio sa data tl ff).1.st.snd.get? (Tp22.buffer_hash i' sa' da') = s.snd.get? (Tp22.buffer_hash i' sa' da') := by
+  apply sendPgn22_get?_other cfg s now dp pf ps prio sa data tl ff hl
+  intro i dst h
+  rw [J1939.Props.C02.hash22_arith, J1939.Props.C02.hash22_arith] at h
+  omega
+
 end frames22
 
 end J1939.Props.C10
